@@ -87,9 +87,43 @@ fn case<R: Ent>(rng: &mut StdRng, t: &mut Tracer, st: &mut Stats, maxlen: usize,
     }
 }
 
+/// spec -> impl: one TLC-generated sequence of reducer calls replayed on a planted complex
+fn scheduled<R: Ent>(rng: &mut StdRng, t: &mut Tracer, st: &mut Stats, calls: &[Value], len: usize, nonunits: &dyn Fn(&mut StdRng) -> R) where for<'x> &'x R: RingOps<R> {
+    st.cases += 1;
+    let pl = planted::<R>(rng, len, 5, nonunits, 0.6, st);
+    let dl = pl.d.clone();
+    let last_n = dl[len - 1].nrows();
+    let c = GenericChainComplex::<R>::generate(0..=(len as isize), 1, move |i| if (i as usize) < dl.len() { dl[i as usize].clone() } else { SpMat::zero((0, last_n)) });
+    t.emit(&json!({"op":"cr_start","res":"ok","ring":R::ring(),"type":R::tname(),"lo":0,"hi":len as isize - 1,"d":pl.d.iter().map(sp_json).collect::<Vec<_>>(),
+        "vecs": pl.cycles.iter().map(|vs| json!(vs.iter().map(vec_json).collect::<Vec<_>>())).collect::<Vec<_>>(), "kind": "tlc-schedule"}));
+    st.events += 1;
+    let mut red = ChainReducer::<isize, R>::from(&c, true);
+    for (i, vs) in pl.cycles.iter().enumerate() { for v in vs { red.add_vec(i as isize, v.clone()); } }
+    for call in calls {
+        let i = call["i"].as_i64().unwrap() as isize; if i as usize >= len { continue; }
+        let pt = if call["pt"] == "Rows" { PivotType::Rows } else { PivotType::Cols };
+        let pc = match call["pc"].as_str().unwrap() { "One" => PivotCondition::One, "AnyUnit" => PivotCondition::AnyUnit, _ => PivotCondition::Weight(2.0) };
+        let res = guarded(|| { red.reduce_at_spec(i, pt, pc); });
+        let mut e = match res { Ok(()) => { let mut e = state_json(&red, len, true); e["res"] = json!("ok"); e } Err(m) => json!({"res":"panic","panic":m}) };
+        e["op"] = json!("cr_reduce"); e["call"] = call.clone(); e["deep"] = json!(false);
+        t.emit(&e); st.events += 1; st.steps += 1;
+        if e["res"] != "ok" { st.panics += 1; break; }
+    }
+}
+
 pub fn record(a: &Args) {
     let mut t = Tracer::create(&a.out);
     let mut st = Stats::default();
+    if let Some(pth) = &a.inp {
+        let mut rng = a.rng(91);
+        for (k, ln) in read_ndjson(pth).iter().enumerate() {
+            let calls = ln["calls"].as_array().unwrap();
+            let len = 1 + calls.iter().map(|c| c["i"].as_u64().unwrap() as usize).max().unwrap_or(0).max(k % 2);
+            match k % 3 { 0 => scheduled::<i64>(&mut rng, &mut t, &mut st, calls, len, &|r: &mut StdRng| [2i64, 3, -2][r.gen_range(0..3)]),
+                          1 => scheduled::<Ratio<i64>>(&mut rng, &mut t, &mut st, calls, len, &|r: &mut StdRng| Ratio::new([2i64, 3, -3][r.gen_range(0..3)], [1i64, 2][r.gen_range(0..2)])),
+                          _ => scheduled::<FF<3>>(&mut rng, &mut t, &mut st, calls, len, &|r: &mut StdRng| FF::new(r.gen_range(1..3))) }
+        }
+    }
     let (nc, maxlen, maxr) = if a.thorough() { (80, 6, 8) } else { (12, 4, 6) };
     let all = [PivotCondition::One, PivotCondition::AnyUnit, PivotCondition::Weight(2.0)];
     macro_rules! run { ($t:ty, $salt:expr, $maxlen:expr, $maxr:expr, $nu:expr) => {{ let mut rng = a.rng($salt); for _ in 0..nc { case::<$t>(&mut rng, &mut t, &mut st, $maxlen, $maxr, $nu, &all); } }} }
